@@ -1283,6 +1283,79 @@ def generate_glue():
     return "\n".join(lines) + "\n"
 
 
+NODE_DIRS = ["rtamt/syntax/node/ltl", "rtamt/syntax/node/stl", "rtamt/syntax/node/arithmetic"]
+OUT_NAMES = os.path.join(os.path.dirname(HERE), "lean", "Rtamt", "Py", "GeneratedNames.lean")
+NODE_KINDS = ["Variable", "Constant", "Predicate", "Abs", "Sqrt", "Exp", "Ln", "Negate", "Neg", "Addition", "Subtraction", "Multiplication",
+              "Division", "Pow", "Log", "Conjunction", "Disjunction", "Implies", "Iff", "Xor", "Rise", "Fall", "Previous", "StrongPrevious",
+              "Next", "StrongNext", "Once", "Historically", "Eventually", "Always", "Since", "Until", "TimedOnce", "TimedHistorically",
+              "TimedEventually", "TimedAlways", "TimedSince", "TimedUntil", "TimedPrecedes"]
+
+
+def name_pieces(cls):
+    """The pieces `self.name` is concatenated from in the constructor of a node class (the last assignment on the path without a
+    field, i.e. `if not self.field:` for variables)."""
+    init = [n for n in cls.body if isinstance(n, ast.FunctionDef) and n.name == "__init__"]
+    if not init:
+        return None
+    init = init[0]
+    params = [a.arg for a in init.args.args[1:]]
+    kids = [p_ for p_ in params if p_.startswith("child")]
+    target = None
+    for st in ast.walk(init):
+        if isinstance(st, ast.Assign) and len(st.targets) == 1 and src(st.targets[0]) == "self.name":
+            if target is None or cls.name != "Variable":
+                target = st.value if target is None or cls.name != "Variable" else target
+    if target is None:
+        return None
+
+    def flat(e):
+        if isinstance(e, ast.BinOp) and isinstance(e.op, ast.Add):
+            return flat(e.left) + flat(e.right)
+        return [e]
+    out = []
+    for e in flat(target):
+        t = src(e)
+        if isinstance(e, ast.Constant) and isinstance(e.value, str):
+            out.append("(.lit %s)" % q(e.value))
+        elif isinstance(e, ast.Attribute) and e.attr == "name" and isinstance(e.value, ast.Name) and e.value.id in kids:
+            out.append("(.child %d)" % kids.index(e.value.id))
+        elif t in ("str(self.begin)", "str(interval.begin)"):
+            out.append(".begin_")
+        elif t in ("str(self.begin_unit)", "str(interval.begin_unit)"):
+            out.append(".beginUnit")
+        elif t in ("str(self.end)", "str(interval.end)"):
+            out.append(".end_")
+        elif t in ("str(self.end_unit)", "str(interval.end_unit)"):
+            out.append(".endUnit")
+        elif t in ("str(self.operator)", "str(operator)"):
+            out.append(".operator")
+        elif t in ("str(val)", "str(self.val)"):
+            out.append(".val")
+        elif t in ("self.var", "var"):
+            out.append(".var")
+        else:
+            out.append("(.unsupported %s)" % q(t))
+    return out
+
+
+def generate_names():
+    """How every node class builds the `name` under which the online interpreters store its operator."""
+    found = {}
+    for d in NODE_DIRS:
+        for path in sorted(glob.glob(os.path.join(REPO, d, "*.py"))):
+            tree = ast.parse(open(path).read())
+            for n in tree.body:
+                if isinstance(n, ast.ClassDef) and n.name in NODE_KINDS:
+                    found[n.name] = name_pieces(n)
+    lines = ["/- GENERATED by harness/py2lean.py from the node classes under %s of /repo on every run - do not edit. -/" % ", ".join(NODE_DIRS),
+             "import Rtamt.Py.Names", "", "namespace Rtamt.Py.Gen.Names", "open Rtamt Rtamt.Py", "",
+             "/-- class -> the pieces of `self.name` -/",
+             "def table : List (Kind × List NP) :=\n  [%s]" % ",\n   ".join(
+                 "(.%s, [%s])" % (k, ", ".join(found[k])) for k in NODE_KINDS if found.get(k) is not None),
+             "", "end Rtamt.Py.Gen.Names"]
+    return "\n".join(lines) + "\n"
+
+
 def write_if_changed(path, txt):
     old = open(path).read() if os.path.exists(path) else None
     if txt != old:
@@ -1297,6 +1370,7 @@ def main():
     write_if_changed(OUT_CLOCK, generate_clock())
     write_if_changed(OUT_EXPL, generate_expl())
     write_if_changed(OUT_GLUE, generate_glue())
+    write_if_changed(OUT_NAMES, generate_names())
     write_if_changed(OUT_HOR, generate_horizon())
     write_if_changed(OUT_PAST, generate_past())
     write_if_changed(OUT_ONCTOR, generate_onctor())
